@@ -323,6 +323,21 @@ BINOPS = {'Eq', 'Ne', 'Lt', 'Le', 'Gt', 'Ge', 'Add', 'Sub', 'Mul', 'Div', 'Rem',
           'MulWithOverflow', 'Not', 'Neg', 'PtrMetadata', 'BitAnd', 'BitOr', 'BitXor', 'Shl', 'Shr', 'Cmp', 'Offset',
           'AddUnchecked', 'SubUnchecked', 'MulUnchecked', 'ShlUnchecked', 'ShrUnchecked'}
 
+def low_zero_bits(t, depth=0):
+    """a k such that the integer term t is provably a multiple of 2^k (syntactic; 0 when nothing is known)"""
+    if not z3.is_expr(t) or depth > 12: return 0
+    if z3.is_int_value(t):
+        v = t.as_long()
+        return 64 if v == 0 else ((v & -v).bit_length() - 1)
+    if not z3.is_app(t): return 0
+    kind = t.decl().kind(); ch = t.children()
+    if kind == z3.Z3_OP_MUL: return min(64, sum(low_zero_bits(c, depth + 1) for c in ch))
+    if kind in (z3.Z3_OP_ADD, z3.Z3_OP_SUB): return min(low_zero_bits(c, depth + 1) for c in ch)
+    if kind == z3.Z3_OP_MOD and z3.is_int_value(ch[1]):
+        m = ch[1].as_long()
+        if m > 0 and m & (m - 1) == 0: return min(low_zero_bits(ch[0], depth + 1), m.bit_length() - 1)
+    if kind == z3.Z3_OP_ITE: return min(low_zero_bits(ch[1], depth + 1), low_zero_bits(ch[2], depth + 1))
+    return 0
 def as_bv(x, bits): return z3.Int2BV(x, bits)
 def bitop(op, a, b, ty):
     lo, hi = int_bounds(ty); bits = (hi - lo + 1).bit_length() - 1
@@ -748,6 +763,12 @@ class Engine:
         if op == 'Rem': return trem(a, b)
         if op in ('BitAnd', 'BitOr', 'BitXor'):
             if z3.is_bool(a): return {'BitAnd': z3.And(a, b), 'BitOr': z3.Or(a, b), 'BitXor': z3.Xor(a, b)}[op]
+            if op in ('BitOr', 'BitXor'):
+                # `(x << k) | d` with 0 <= d < 2^k (the accumulator idiom): the bit ranges are disjoint, so the result is the sum —
+                # keeps the query in linear integer arithmetic instead of Int2BV / BV2Int
+                for p, q in ((a, b), (b, a)):
+                    k = low_zero_bits(p)
+                    if k and not s.feasible(z3.Or(q < 0, q >= (1 << min(k, 62)))): return wrap(p + q, dst_ty)
             return bitop(op, a, b, dst_ty)
         if op in ('Shl', 'Shr', 'ShlUnchecked', 'ShrUnchecked'):
             bs = z3.simplify(b)
